@@ -348,11 +348,14 @@ def run(ctx):
         a0 = mins[0].args[0] if mins[0].args else None
         if args == [pvar]:
             min_ok = key_ok
-        elif len(args) == 1 and isinstance(a0, ast.BinOp) and isinstance(a0.op, ast.Add) \
-                and isinstance(a0.left, ast.List) and len(a0.left.elts) == 1 and norm(a0.right) == pvar:
-            # min([sentinel] + profile, key=...): the first of the lowest points, the
-            # sentinel only when nothing lies below it
-            sv = canon(prof).expr(a0.left.elts[0])
+        elif len(args) == 1 and (
+                isinstance(a0, ast.BinOp) and isinstance(a0.op, ast.Add)
+                and isinstance(a0.left, ast.List) and len(a0.left.elts) == 1 and norm(a0.right) == pvar
+                or isinstance(a0, ast.List) and len(a0.elts) == 2 and isinstance(a0.elts[1], ast.Starred)
+                and norm(a0.elts[1].value) == pvar):
+            # min([sentinel] + profile, key=...) / min([sentinel, *profile], key=...): the
+            # first of the lowest points, the sentinel only when nothing lies below it
+            sv = canon(prof).expr(a0.left.elts[0] if isinstance(a0, ast.BinOp) else a0.elts[0])
             sent = try_fold(sv.elts[1]) if isinstance(sv, ast.Tuple) and len(sv.elts) == 2 else None
             from sa.astutil import is_inf
             min_ok = key_ok and (sent is not None and sent >= 1e6 or
